@@ -1,4 +1,5 @@
 """Module whose last name component collides with vfx.pa.common."""
+import fiddle as fdl
 import vfx
 
 
@@ -10,3 +11,7 @@ class Thing(vfx.RecObj):
 
   def __init__(self, x='dx', y='dy'):
     self._record('pb.Thing', locals())
+
+
+class DType(fdl.Tag):
+  """A tag class that exists under the same name in vfx.pa and vfx.pb."""
